@@ -52,6 +52,7 @@ type Unit struct {
 	models   map[string]*Model
 	pureSyms map[string]bool
 	addrTaken map[*ssa.Function]bool
+	intrinsic map[*ssa.Function]*label
 	litNames  map[token.Pos]string // function literals in package-level var initialisers: stable names
 }
 
